@@ -9,8 +9,10 @@ Property theorems only.  The scheme (`Model/C03/Schnorr.lean`, `Batch.lean`) is 
 btclib's `ssa.py` / `bip340_nonce.py` / `commit_nonce.py` over an abstract group interface
 `o : GroupOps α`; every theorem holds for EVERY lawful group (`L : Lawful o G`: prime order `n`,
 x-coordinate identifying `±P`, y-parity flipping under negation, `lift_x`), every tagged-hash function
-`prm.TH`, every byte size, every message of any length, every key, every aux.  That the executable
-instance `Btc.EC.ops c` used by the driver is lawful is property C01's claim, a named hypothesis here.
+`prm.TH`, every byte size, every message of any length, every key, every aux.  The abstract hypothesis `L` is
+discharged in the end-to-end section below by C01's `lawful_ec : Lawful (opsSub K) _` (NOT `Lawful (EC.ops c)`,
+which is uninhabited): T1 is then about the executed `Btc.EC.ops C` outright, T2–T4 about `Btc.EC.ops C` under the
+one named assumption of cofactor one (`hcof`; for secp256k1 `Btc.E2E.SecpCofactorOne`).
 The tags and `int_from_bits` are the translated source (`Gen.Schnorr`).  Retry loops carry explicit
 fuel: "sign returns `ok`" is a hypothesis, never a conclusion.
 -/
@@ -265,13 +267,13 @@ is `Btc.EC.ops C` applied to the underlying integer pairs, with `lift_x` filtere
 never executed.  Every theorem below is therefore stated about the raw `Btc.EC.ops C` the driver runs:
 * T1 (sign → verify) needs nothing more (`sign_` never lifts a foreign x);
 * T2–T4 (verify ⇔ equation, batch) need the filter never to fire, i.e. the explicit, NAMED hypothesis
-  `hcof : ∀ g, n • g = 0` (cofactor one: every point of the curve has order dividing `n`) together with `Δ ≠ 0`; under it
-  verify and batch over `opsSub K` ARE the runs over `Btc.EC.ops C`, refusal classes included (`verify_sub_eq_ec`,
-  `batch_sub_eq_ec`).  Without it only `verify_sub_imp_ec` holds, and on a curve with a cofactor T2 is false of `lift_x`.
+  `hcof : ∀ g, n • g = 0` (cofactor one: every point of the curve has order dividing `n`; theorems `…_cofactor_one`) together with `Δ ≠ 0`; under it
+  verify and batch over `opsSub K` ARE the runs over `Btc.EC.ops C`, refusal classes included (`verify_sub_eq_cofactor_one`,
+  `batch_sub_eq_cofactor_one`).  Without it only `verify_sub_imp_ec` holds, and on a curve with a cofactor T2 is false of `lift_x`.
 For secp256k1 (generated constants): primality of `p` and `n` is PROVED (Pratt certificates, `secp256k1_p_prime`,
 `secp256k1_n_prime`), `Δ ≠ 0` is proved, the rest of `CurveOk` is computed by the kernel; **`hcof` is the one remaining
-assumption about the curve** (Mathlib has no point count / Hasse bound) and is an explicit hypothesis of every
-`_secp256k1` theorem except T1. -/
+assumption about the curve** (Mathlib has no point count / Hasse bound) spelled `Btc.E2E.SecpCofactorOne`, the first explicit
+argument of every `_secp256k1_cofactor_one` theorem (T1, the codec and the size facts need none). -/
 namespace Props.C03
 open WeierstrassCurve
 open Btc Btc.EC Btc.C01 Btc.E2E Btc.Schnorr
@@ -295,22 +297,22 @@ theorem verify_sub_imp_ec {p : ℕ} [Fact p.Prime] {C : Curve} (K : CurveOk p C)
 
 /-- … and under cofactor one the converse too: the two runs are EQUAL, as results with their refusal class
     (`assert_as_valid_`) and as verdicts (`verify_`) -/
-theorem verify_sub_eq_ec {p : ℕ} [Fact p.Prime] {C : Curve} (K : CurveOk p C) (h34 : p % 4 = 3)
+theorem verify_sub_eq_cofactor_one {p : ℕ} [Fact p.Prime] {C : Curve} (K : CurveOk p C) (h34 : p % 4 = 3)
     (hcof : ∀ g : Pt p C.toCurveGroup, C.n • g = 0) (hΔ : (curveOf p C.toCurveGroup).toAffine.Δ ≠ 0)
     (prm : Params) (msg : Bytes) (xQ : ℤ) (sg : Sig) :
     assertAsValid (opsSub K) prm msg xQ sg = assertAsValid (EC.ops C) prm msg xQ sg ∧
     verify (opsSub K) prm msg xQ sg = verify (EC.ops C) prm msg xQ sg :=
-  ⟨assertAsValid_eq K (liftAgree03 K h34 hcof hΔ) prm msg xQ sg, verify_eq K (liftAgree03 K h34 hcof hΔ) prm msg xQ sg⟩
+  ⟨assertAsValid_eq K (liftAgree_of_cofactor_one K h34 hcof hΔ) prm msg xQ sg, verify_eq K (liftAgree_of_cofactor_one K h34 hcof hΔ) prm msg xQ sg⟩
 
 /-- the batch likewise: `assert_batch_as_valid_` over `opsSub K` IS the run over `Btc.EC.ops C` -/
-theorem batch_sub_eq_ec {p : ℕ} [Fact p.Prime] {C : Curve} (K : CurveOk p C) (h34 : p % 4 = 3)
+theorem batch_sub_eq_cofactor_one {p : ℕ} [Fact p.Prime] {C : Curve} (K : CurveOk p C) (h34 : p % 4 = 3)
     (hcof : ∀ g : Pt p C.toCurveGroup, C.n • g = 0) (hΔ : (curveOf p C.toCurveGroup).toAffine.Δ ≠ 0)
     (prm : Params) (coef : ℕ → ℤ) (items : List Item) :
     assertBatch (opsSub K) prm coef items = assertBatch (EC.ops C) prm coef items :=
-  assertBatch_eq K (liftAgree03 K h34 hcof hΔ) prm coef items
+  assertBatch_eq K (liftAgree_of_cofactor_one K h34 hcof hΔ) prm coef items
 
 /-- T2 about the executed `verify (Btc.EC.ops C)`, raw integer pairs, cofactor one -/
-theorem verify_iff_ec {p : ℕ} [Fact p.Prime] {C : Curve} (K : CurveOk p C) (h34 : p % 4 = 3)
+theorem verify_iff_cofactor_one {p : ℕ} [Fact p.Prime] {C : Curve} (K : CurveOk p C) (h34 : p % 4 = 3)
     (hcof : ∀ g : Pt p C.toCurveGroup, C.n • g = 0) (hΔ : (curveOf p C.toCurveGroup).toAffine.Δ ≠ 0)
     (prm : Params) (msg : Bytes) (xQ : ℤ) (sg : Sig) :
     verify (EC.ops C) prm msg xQ sg = true ↔
@@ -323,18 +325,18 @@ theorem verify_iff_ec {p : ℕ} [Fact p.Prime] {C : Curve} (K : CurveOk p C) (h3
           ((EC.ops C).mul (challengeInt (EC.ops C) prm msg xQ sg.r) Q)) = true ∧
         (EC.ops C).x ((EC.ops C).sub ((EC.ops C).mul sg.s C.G)
           ((EC.ops C).mul (challengeInt (EC.ops C) prm msg xQ sg.r) Q)) = sg.r :=
-  verify_iff_raw K (liftAgree03 K h34 hcof hΔ) h34 prm msg xQ sg
+  Btc.E2E.verify_iff_cofactor_one K (liftAgree_of_cofactor_one K h34 hcof hΔ) h34 prm msg xQ sg
 
 /-- T3 about the executed `batchVerify (Btc.EC.ops C)`, cofactor one -/
-theorem batch_complete_ec {p : ℕ} [Fact p.Prime] {C : Curve} (K : CurveOk p C) (h34 : p % 4 = 3)
+theorem batch_complete_cofactor_one {p : ℕ} [Fact p.Prime] {C : Curve} (K : CurveOk p C) (h34 : p % 4 = 3)
     (hcof : ∀ g : Pt p C.toCurveGroup, C.n • g = 0) (hΔ : (curveOf p C.toCurveGroup).toAffine.Δ ≠ 0)
     (prm : Params) (coef : ℕ → ℤ) (items : List Item) (hne : items ≠ [])
     (hall : ∀ it ∈ items, verify (EC.ops C) prm it.msg it.xQ it.sg = true) :
     batchVerify (EC.ops C) prm coef items = true :=
-  batch_complete_raw K (liftAgree03 K h34 hcof hΔ) h34 prm coef items hne hall
+  Btc.E2E.batch_complete_cofactor_one K (liftAgree_of_cofactor_one K h34 hcof hΔ) h34 prm coef items hne hall
 
 /-- T4 (one bad member) about the executed batch; `hbad` is the executed `verify_` answering False -/
-theorem batch_one_bad_fails_ec {p : ℕ} [Fact p.Prime] {C : Curve} (K : CurveOk p C) (h34 : p % 4 = 3)
+theorem batch_one_bad_fails_cofactor_one {p : ℕ} [Fact p.Prime] {C : Curve} (K : CurveOk p C) (h34 : p % 4 = 3)
     (hcof : ∀ g : Pt p C.toCurveGroup, C.n • g = 0) (hΔ : (curveOf p C.toCurveGroup).toAffine.Δ ≠ 0)
     (prm : Params) (coef : ℕ → ℤ) (it0 it1 : Item) (rest : List Item) (j : ℕ) (bad : Item)
     (hj : (it0 :: it1 :: rest)[j]? = some bad)
@@ -343,10 +345,10 @@ theorem batch_one_bad_fails_ec {p : ℕ} [Fact p.Prime] {C : Curve} (K : CurveOk
       verify (EC.ops C) prm it'.msg it'.xQ it'.sg = true)
     (hcoef : ¬ C.n ∣ coefAt coef j) :
     batchVerify (EC.ops C) prm coef (it0 :: it1 :: rest) = false :=
-  batch_one_bad_fails_raw K (liftAgree03 K h34 hcof hΔ) h34 prm coef it0 it1 rest j bad hj hbad hothers hcoef
+  Btc.E2E.batch_one_bad_fails_cofactor_one K (liftAgree_of_cofactor_one K h34 hcof hΔ) h34 prm coef it0 it1 rest j bad hj hbad hothers hcoef
 
 /-- T4 (any number of bad members) about the executed batch: at most one `aⱼ mod n` passes -/
-theorem batch_at_most_one_coeff_ec {p : ℕ} [Fact p.Prime] {C : Curve} (K : CurveOk p C) (h34 : p % 4 = 3)
+theorem batch_at_most_one_coeff_cofactor_one {p : ℕ} [Fact p.Prime] {C : Curve} (K : CurveOk p C) (h34 : p % 4 = 3)
     (hcof : ∀ g : Pt p C.toCurveGroup, C.n • g = 0) (hΔ : (curveOf p C.toCurveGroup).toAffine.Δ ≠ 0)
     (prm : Params) (coef coef' : ℕ → ℤ) (it0 it1 : Item) (rest : List Item) (j : ℕ) (bad : Item) (hj1 : 1 ≤ j)
     (hj : (it0 :: it1 :: rest)[j]? = some bad)
@@ -355,7 +357,7 @@ theorem batch_at_most_one_coeff_ec {p : ℕ} [Fact p.Prime] {C : Curve} (K : Cur
     (h1 : batchVerify (EC.ops C) prm coef (it0 :: it1 :: rest) = true)
     (h2 : batchVerify (EC.ops C) prm coef' (it0 :: it1 :: rest) = true) :
     C.n ∣ coef j - coef' j :=
-  batch_at_most_one_coeff_raw K (liftAgree03 K h34 hcof hΔ) h34 prm coef coef' it0 it1 rest j bad hj1 hj hbad hagree h1 h2
+  Btc.E2E.batch_at_most_one_coeff_cofactor_one K (liftAgree_of_cofactor_one K h34 hcof hΔ) h34 prm coef coef' it0 it1 rest j bad hj1 hj hbad hagree h1 h2
 
 /-! ### secp256k1 (generated constants): primality proved, `Δ ≠ 0` proved; `hcof` the one named assumption -/
 
@@ -367,7 +369,7 @@ theorem sign_verifies_secp256k1 (prm : Params)
   Btc.E2E.sign_verifies_secp256k1 prm fuel msg q aux sg h
 
 /-- T2 about `verify (Btc.EC.ops secp256k1)`, under `hcof` -/
-theorem verify_iff_secp256k1 (hcof : ∀ g : SecpGroup, secp256k1.n • g = 0) (prm : Params)
+theorem verify_iff_secp256k1_cofactor_one (hcof : SecpCofactorOne) (prm : Params)
     (msg : Bytes) (xQ : ℤ) (sg : Sig) :
     verify (EC.ops secp256k1) prm msg xQ sg = true ↔
       0 ≤ sg.r ∧ sg.r < secp256k1.p ∧ 0 ≤ sg.s ∧ sg.s < secp256k1.n ∧
@@ -379,18 +381,18 @@ theorem verify_iff_secp256k1 (hcof : ∀ g : SecpGroup, secp256k1.n • g = 0) (
           ((EC.ops secp256k1).mul (challengeInt (EC.ops secp256k1) prm msg xQ sg.r) Q)) = true ∧
         (EC.ops secp256k1).x ((EC.ops secp256k1).sub ((EC.ops secp256k1).mul sg.s secp256k1.G)
           ((EC.ops secp256k1).mul (challengeInt (EC.ops secp256k1) prm msg xQ sg.r) Q)) = sg.r :=
-  @verify_iff_raw secp256k1_p ⟨secp256k1_p_prime⟩ secp256k1 secpOk (secp_liftAgree03 hcof) secp256k1_h34 prm msg xQ sg
+  @Btc.E2E.verify_iff_cofactor_one secp256k1_p ⟨secp256k1_p_prime⟩ secp256k1 secpOk (secp_liftAgree03 hcof) secp256k1_h34 prm msg xQ sg
 
 /-- T3 about `batchVerify (Btc.EC.ops secp256k1)`, under `hcof` -/
-theorem batch_complete_secp256k1 (hcof : ∀ g : SecpGroup, secp256k1.n • g = 0) (prm : Params)
+theorem batch_complete_secp256k1_cofactor_one (hcof : SecpCofactorOne) (prm : Params)
     (coef : ℕ → ℤ) (items : List Item) (hne : items ≠ [])
     (hall : ∀ it ∈ items, verify (EC.ops secp256k1) prm it.msg it.xQ it.sg = true) :
     batchVerify (EC.ops secp256k1) prm coef items = true :=
-  @batch_complete_raw secp256k1_p ⟨secp256k1_p_prime⟩ secp256k1 secpOk (secp_liftAgree03 hcof) secp256k1_h34 prm coef
+  @Btc.E2E.batch_complete_cofactor_one secp256k1_p ⟨secp256k1_p_prime⟩ secp256k1 secpOk (secp_liftAgree03 hcof) secp256k1_h34 prm coef
     items hne hall
 
 /-- T4 (one bad member) about `batchVerify (Btc.EC.ops secp256k1)`, under `hcof` -/
-theorem batch_one_bad_fails_secp256k1 (hcof : ∀ g : SecpGroup, secp256k1.n • g = 0) (prm : Params)
+theorem batch_one_bad_fails_secp256k1_cofactor_one (hcof : SecpCofactorOne) (prm : Params)
     (coef : ℕ → ℤ) (it0 it1 : Item) (rest : List Item) (j : ℕ) (bad : Item)
     (hj : (it0 :: it1 :: rest)[j]? = some bad)
     (hbad : verify (EC.ops secp256k1) prm bad.msg bad.xQ bad.sg = false)
@@ -398,11 +400,11 @@ theorem batch_one_bad_fails_secp256k1 (hcof : ∀ g : SecpGroup, secp256k1.n •
       verify (EC.ops secp256k1) prm it'.msg it'.xQ it'.sg = true)
     (hcoef : ¬ secp256k1.n ∣ coefAt coef j) :
     batchVerify (EC.ops secp256k1) prm coef (it0 :: it1 :: rest) = false :=
-  @batch_one_bad_fails_raw secp256k1_p ⟨secp256k1_p_prime⟩ secp256k1 secpOk (secp_liftAgree03 hcof) secp256k1_h34 prm
+  @Btc.E2E.batch_one_bad_fails_cofactor_one secp256k1_p ⟨secp256k1_p_prime⟩ secp256k1 secpOk (secp_liftAgree03 hcof) secp256k1_h34 prm
     coef it0 it1 rest j bad hj hbad hothers hcoef
 
 /-- T4 (any number of bad members) about `batchVerify (Btc.EC.ops secp256k1)`, under `hcof` -/
-theorem batch_at_most_one_coeff_secp256k1 (hcof : ∀ g : SecpGroup, secp256k1.n • g = 0) (prm : Params)
+theorem batch_at_most_one_coeff_secp256k1_cofactor_one (hcof : SecpCofactorOne) (prm : Params)
     (coef coef' : ℕ → ℤ) (it0 it1 : Item) (rest : List Item) (j : ℕ) (bad : Item) (hj1 : 1 ≤ j)
     (hj : (it0 :: it1 :: rest)[j]? = some bad)
     (hbad : verify (EC.ops secp256k1) prm bad.msg bad.xQ bad.sg = false)
@@ -410,7 +412,7 @@ theorem batch_at_most_one_coeff_secp256k1 (hcof : ∀ g : SecpGroup, secp256k1.n
     (h1 : batchVerify (EC.ops secp256k1) prm coef (it0 :: it1 :: rest) = true)
     (h2 : batchVerify (EC.ops secp256k1) prm coef' (it0 :: it1 :: rest) = true) :
     secp256k1.n ∣ coef j - coef' j :=
-  @batch_at_most_one_coeff_raw secp256k1_p ⟨secp256k1_p_prime⟩ secp256k1 secpOk (secp_liftAgree03 hcof) secp256k1_h34
+  @Btc.E2E.batch_at_most_one_coeff_cofactor_one secp256k1_p ⟨secp256k1_p_prime⟩ secp256k1 secpOk (secp_liftAgree03 hcof) secp256k1_h34
     prm coef coef' it0 it1 rest j bad hj1 hj hbad hagree h1 h2
 
 /-- the sizes the DRIVER computes for secp256k1 (`Params.ofCurve`: from the bit lengths of `p` and `n`, as btclib's
